@@ -32,7 +32,9 @@ class LibRng:
     """serves os.urandom / random / secrets from the run's `lib` stream"""
 
     def __init__(self):
-        self.r = random.Random(0)
+        # what the code under test draws while it is being imported (module-level secrets, salts): the same in every worker, but another
+        # value in the second interpreter of a real restart -- a new process does not draw the randomness of the old one again
+        self.r = random.Random(int(os.environ.get("SSESIM_IMPORT_SEED", "0") or 0))
 
     def urandom(self, n):
         return self.r.randbytes(n)
